@@ -210,6 +210,24 @@ def run(chk):
         return o, worlds
     val = X.atom('new_value', 'pos')
     masses = [Mh, Mw[1], Mw[2]]
+    from ..core.interp import PathExplorer, RaiseSignal
+
+    def paths(scen, itp=None):
+        """every way through the tests the mutators make on the values they are given: [(path label, 'returned' | 'raised: ...', what scen returned)]"""
+        itp = itp or it2
+
+        def one(fork):
+            itp.hooks['fork'] = fork
+            try:
+                return ('returned', scen())
+            except RaiseSignal as r_:
+                return ('raised: ' + str(r_.text)[:60], None)
+            finally:
+                itp.hooks.pop('fork', None)
+        res = [(PathExplorer.label(tr_), how, st) for tr_, (how, st) in PathExplorer(max_paths=128).run(one)]
+        if not any(how == 'returned' for _l, how, _s in res):
+            raise AnalysisError('an orbit update scenario raises on every path: ' + '; '.join(h_ for _l, h_, _s in res[:2]))
+        return [(l_, st) for l_, how, st in res if how == 'returned']
 
     def kepler_ok(o, i, stellar):
         a_ = o.attrs['_semi_major_axes'][i]; n_ = o.attrs['_orbital_frequencies'][i]; P_ = o.attrs['_orbital_periods'][i]
@@ -235,29 +253,35 @@ def run(chk):
             raise AnalysisError(f'OrbitBase.{meth} vanished')
         for signame, mk, stellar, slot in sigs:
             for by_world in ((False, True) if meth == 'set_state' else (False,)):
-                o, worlds = fresh()
-                sig = mk(worlds)
-                if meth == 'set_state':
-                    kws = {k: val for k in kw}; kws['set_stellar_orbit'] = stellar; kws['set_by_world'] = by_world
-                    it2.call(mo, ms[meth], [sig], kws, self_obj=o)
-                else:
-                    it2.call(mo, ms[meth], [sig, val], {'set_stellar_orbit': stellar}, self_obj=o)
-                ok, why = kepler_ok(o, slot, stellar)
+                def scen():
+                    o, worlds = fresh()
+                    sig = mk(worlds)
+                    if meth == 'set_state':
+                        kws = {k: val for k in kw}; kws['set_stellar_orbit'] = stellar; kws['set_by_world'] = by_world
+                        it2.call(mo, ms[meth], [sig], kws, self_obj=o)
+                    else:
+                        it2.call(mo, ms[meth], [sig, val], {'set_stellar_orbit': stellar}, self_obj=o)
+                    return o
                 which = list(kw)[0] if kw else meth[4:]
-                # the quantity provided must be stored as given, in the slot the signature designates
                 stored = {'semi_major_axis': '_semi_major_axes', 'orbital_frequency': '_orbital_frequencies', 'orbital_period': '_orbital_periods', 'eccentricity': '_eccentricities'}[which]
-                given_ok = o.attrs[stored][slot] is val
-                if which == 'eccentricity':
-                    # Kepler triple untouched
-                    untouched = all(o.attrs[k][slot].op == 'atom' and o.attrs[k][slot].val[0].startswith('old_') for k in KEP)
-                    ok, why = untouched, '' if untouched else 'eccentricity-only change modified the Kepler triple'
-                # every other slot untouched
-                touched = [f'{k}[{j}]' for k in KEP + ('_eccentricities',) for j in range(3) if j != slot
-                           and not (isinstance(o.attrs[k][j], X.Node) and o.attrs[k][j].op == 'atom' and o.attrs[k][j].val[0].startswith('old_'))]
+                bad = []
+                for lab_, o in paths(scen):
+                    ok, why = kepler_ok(o, slot, stellar)
+                    # the quantity provided must be stored as given, in the slot the signature designates
+                    given_ok = o.attrs[stored][slot] is val
+                    if which == 'eccentricity':
+                        # Kepler triple untouched
+                        untouched = all(o.attrs[k][slot].op == 'atom' and o.attrs[k][slot].val[0].startswith('old_') for k in KEP)
+                        ok, why = untouched, '' if untouched else 'eccentricity-only change modified the Kepler triple'
+                    # every other slot untouched
+                    touched = [f'{k}[{j}]' for k in KEP + ('_eccentricities',) for j in range(3) if j != slot
+                               and not (isinstance(o.attrs[k][j], X.Node) and o.attrs[k][j].op == 'atom' and o.attrs[k][j].val[0].startswith('old_'))]
+                    if not (ok and given_ok and not touched):
+                        bad.append(why + ('' if given_ok else f' given value not stored in slot {slot};') + (f' other slots modified: {touched}' if touched else '') + lab_)
                 inst = f'OrbitBase.{meth}({which}, world given as {signame}, stellar={stellar}' + (f', set_by_world={by_world}' if meth == 'set_state' else '') + ')'
-                chk.ob('R17.4', inst + f': slot {slot} holds a Kepler-consistent (a, n, P) with the given value, all other slots untouched', ok and given_ok and not touched,
-                       why + ('' if given_ok else f' given value not stored in slot {slot};') + (f' other slots modified: {touched}' if touched else ''), mo.where(ms[meth]),
-                       key=f'R17.4|{inst}', method='interpreted mutator (real world_signature_to_index) + GF(p^2) PIT')
+                chk.ob('R17.4', inst + f': slot {slot} holds a Kepler-consistent (a, n, P) with the given value, all other slots untouched', not bad,
+                       '; '.join(bad[:2]), mo.where(ms[meth]),
+                       key=f'R17.4|{inst}', method='interpreted mutator (real world_signature_to_index; every outcome of its tests on the value) + GF(p^2) PIT')
     # "... for the current masses": a world's mass changes (set_geometry / reinit) and the orbit is given the same value again -- the very same object, as a driver
     # re-sending its state does.  The stored triple must follow the new mass.
     for meth, kw in cases:
@@ -265,23 +289,28 @@ def run(chk):
         if which == 'eccentricity':
             continue
         for who, slot, sig_mk in (('the moon', 2, lambda w: 2), ('the host', 2, lambda w: w[2])):
-            o, worlds = fresh()
-            sig = sig_mk(worlds)
-
-            def send():
-                if meth == 'set_state':
-                    it2.call(mo, ms[meth], [sig], {which: val, 'set_stellar_orbit': False}, self_obj=o)
-                else:
-                    it2.call(mo, ms[meth], [sig, val], {'set_stellar_orbit': False}, self_obj=o)
-            send()
             new_mass = X.atom('mass_after_change', 'pos')
-            tgt = worlds[2] if who == 'the moon' else worlds[0]
-            tgt.attrs['mass'] = new_mass
-            send()
-            a_ = o.attrs['_semi_major_axes'][slot]; n_ = o.attrs['_orbital_frequencies'][slot]; P_ = o.attrs['_orbital_periods'][slot]
+
+            def scen():
+                o, worlds = fresh()
+                sig = sig_mk(worlds)
+
+                def send():
+                    if meth == 'set_state':
+                        it2.call(mo, ms[meth], [sig], {which: val, 'set_stellar_orbit': False}, self_obj=o)
+                    else:
+                        it2.call(mo, ms[meth], [sig, val], {'set_stellar_orbit': False}, self_obj=o)
+                send()
+                tgt = worlds[2] if who == 'the moon' else worlds[0]
+                tgt.attrs['mass'] = new_mass
+                send()
+                return o
             host_m = new_mass if who == 'the host' else Mh
             world_m = new_mass if who == 'the moon' else masses[slot]
-            ok = all(isinstance(v, X.Node) for v in (a_, n_, P_)) and d.equal(a_ ** 3 * n_ * n_, Gc * (host_m + world_m)) and d.equal(P_ * n_ * 86400, 2 * pi)
+            ok = True
+            for lab_, o in paths(scen):
+                a_ = o.attrs['_semi_major_axes'][slot]; n_ = o.attrs['_orbital_frequencies'][slot]; P_ = o.attrs['_orbital_periods'][slot]
+                ok = ok and all(isinstance(v, X.Node) for v in (a_, n_, P_)) and d.equal(a_ ** 3 * n_ * n_, Gc * (host_m + world_m)) and d.equal(P_ * n_ * 86400, 2 * pi)
             inst = f'OrbitBase.{meth}({which}) ; mass of {who} changes ; the same {which} is sent again'
             chk.ob('R17.4', inst + ': the stored (a, n, P) satisfy Kepler\'s third law for the masses as they are now', ok,
                    'the triple still belongs to the old mass (the update was skipped because the value looked unchanged)', mo.where(ms[meth]),
@@ -298,30 +327,81 @@ def run(chk):
     for start in ('populated', 'cleared'):
         for idxs in seqs2:
             for slots in ((2, 2), (1, 2)):
-                o, worlds = fresh()
-                if start == 'cleared' and 'clear_state' in ms:
-                    it2.call(mo, ms['clear_state'], [], {}, self_obj=o)
+                vals_ = [X.atom(f'value_step{step + 1}', 'pos') for step in range(len(idxs))]
+
+                def scen():
+                    o, worlds = fresh()
+                    if start == 'cleared' and 'clear_state' in ms:
+                        it2.call(mo, ms['clear_state'], [], {}, self_obj=o)
+                    for step, (ci, slot_) in enumerate(zip(idxs, slots)):
+                        meth, kw = kep_cases[ci]
+                        which = list(kw)[0] if kw else meth[4:]
+                        if meth == 'set_state':
+                            it2.call(mo, ms[meth], [slot_], {which: vals_[step], 'set_stellar_orbit': False}, self_obj=o)
+                        else:
+                            it2.call(mo, ms[meth], [slot_, vals_[step]], {'set_stellar_orbit': False}, self_obj=o)
+                    return o
                 last = {}
                 for step, (ci, slot_) in enumerate(zip(idxs, slots)):
                     meth, kw = kep_cases[ci]
-                    which = list(kw)[0] if kw else meth[4:]
-                    v_ = X.atom(f'value_step{step + 1}', 'pos')
-                    if meth == 'set_state':
-                        it2.call(mo, ms[meth], [slot_], {which: v_, 'set_stellar_orbit': False}, self_obj=o)
-                    else:
-                        it2.call(mo, ms[meth], [slot_, v_], {'set_stellar_orbit': False}, self_obj=o)
-                    last[slot_] = (which, v_)
+                    last[slot_] = (list(kw)[0] if kw else meth[4:], vals_[step])
                 bad = []
-                for slot_, (which, v_) in last.items():
-                    ok, why = kepler_ok(o, slot_, False)
-                    stored = {'semi_major_axis': '_semi_major_axes', 'orbital_frequency': '_orbital_frequencies', 'orbital_period': '_orbital_periods'}[which]
-                    if not ok: bad.append(why)
-                    elif o.attrs[stored][slot_] is not v_: bad.append(f'slot {slot_}: the last {which} given is not what is stored')
+                for lab_, o in paths(scen):
+                    for slot_, (which, v_) in last.items():
+                        ok, why = kepler_ok(o, slot_, False)
+                        stored = {'semi_major_axis': '_semi_major_axes', 'orbital_frequency': '_orbital_frequencies', 'orbital_period': '_orbital_periods'}[which]
+                        if not ok: bad.append(why + lab_)
+                        elif o.attrs[stored][slot_] is not v_: bad.append(f'slot {slot_}: the last {which} given is not what is stored' + lab_)
                 nseq_ += 1
                 lab_ = ' ; '.join(f'{kep_cases[ci][0]}({(list(kep_cases[ci][1])[0] if kep_cases[ci][1] else kep_cases[ci][0][4:])}) for moon {sl_}' for ci, sl_ in zip(idxs, slots))
                 chk.ob('R17.4', f'orbit {start}; {lab_}: every addressed slot holds a Kepler-consistent (a, n, P) with the last value given', not bad, '; '.join(bad[:2]), mo.where(ms[kep_cases[idxs[-1]][0]]),
                        key=f'R17.4|seq|{start}|{idxs}|{slots}', method='interpreted mutator sequence + GF(p^2) PIT')
     chk.note_analysed('orbit update sequences', nseq_)
+    # R17.9 "an orbit object always reports ...": an update that is refused (any `raise` the mutator can reach: signature checks, the unit sanity checks made under
+    # TidalPy.extensive_checks, ...) leaves the addressed slot either as it was or holding a complete Kepler-consistent triple -- never part of the new state.
+    # Every outcome of the tests the mutator makes on the value is explored, with the package switch off and on.
+    nexc = nraise = 0
+    for ext in (False, True):
+        def glob_hook2(itp, mod, nm, ext=ext):
+            if nm == 'log': return Opaque('log')
+            if nm == 'extensive_checks': return ext
+            return None
+        it3 = Interp(repo, hooks={'global': glob_hook2, 'call': call_hook, 'branch': branch_hook}, max_depth=12)
+        for meth, kw in kep_cases:
+            which = list(kw)[0] if kw else meth[4:]
+            for signame, mk, stellar, slot in (sigs[0], sigs[4], sigs[7]):
+                holder = {}
+
+                def one(fork):
+                    o, worlds = fresh(); holder['o'] = o
+                    it3.hooks['fork'] = fork
+                    try:
+                        if meth == 'set_state':
+                            it3.call(mo, ms[meth], [mk(worlds)], {which: val, 'set_stellar_orbit': stellar}, self_obj=o)
+                        else:
+                            it3.call(mo, ms[meth], [mk(worlds), val], {'set_stellar_orbit': stellar}, self_obj=o)
+                        return ('returned', o)
+                    except RaiseSignal as r_:
+                        return ('raised: ' + str(r_.text)[:60], o)
+                    finally:
+                        it3.hooks.pop('fork', None)
+                bad = []
+                for tr_, (how, o) in PathExplorer(max_paths=64).run(one):
+                    nexc += 1
+                    if how != 'returned': nraise += 1
+                    for j in range(3):
+                        trip = [o.attrs[k][j] for k in KEP]
+                        old_ = [isinstance(v_, X.Node) and v_.op == 'atom' and v_.val[0].startswith('old_') for v_ in trip]
+                        if all(old_):
+                            continue
+                        ok_, why_ = (False, f'slot {j} holds part of the new state next to part of the old one') if any(old_) else kepler_ok(o, j, stellar and j == 0)
+                        if not ok_:
+                            bad.append(f'{how}{PathExplorer.label(tr_)}: {why_}')
+                inst = f'OrbitBase.{meth}({which}, world given as {signame}, stellar={stellar}) with extensive_checks={ext}'
+                chk.ob('R17.9', inst + ': on every way out (return or raise) each slot is untouched or holds a complete Kepler-consistent (a, n, P)', not bad, '; '.join(bad[:2]), mo.where(ms[meth]),
+                       key=f'R17.9|{meth}|{which}|{signame}|{stellar}|{ext}', method='interpreted mutator, all outcomes of its tests on the value (raising paths included) + GF(p^2) PIT')
+    chk.note_analysed('mutator exits examined for atomicity (returning and raising)', nexc)
+    chk.floor('R17.9', 36)
     # readers and writers agree on the slot: what a setter stored for (signature, stellar flag) is what the getter of the same (signature, flag) reports,
     # and the three getters of one (signature, flag) read one and the same slot
     getters = {'get_semi_major_axis': '_semi_major_axes', 'get_orbital_frequency': '_orbital_frequencies', 'get_orbital_period': '_orbital_periods', 'get_eccentricity': '_eccentricities'}
@@ -337,17 +417,24 @@ def run(chk):
     # stellar-distance convenience pair: for a non-star host the stellar distance is the host's heliocentric semi-major axis (slot 0)
     if 'set_stellar_distance' in ms and 'get_stellar_distance' in ms:
         for signame, mk in (('int 0 (tidal host)', lambda w: 0), ('host instance', lambda w: w[0]), ('host name', lambda w: 'Host')):
-            o, worlds = fresh()
-            it2.call(mo, ms['set_stellar_distance'], [mk(worlds), val], {}, self_obj=o)
-            ok, why = kepler_ok(o, 0, True)
-            given_ok = o.attrs['_semi_major_axes'][0] is val
-            touched = [f'{k}[{j}]' for k in KEP + ('_eccentricities',) for j in (1, 2)
-                       if not (isinstance(o.attrs[k][j], X.Node) and o.attrs[k][j].op == 'atom' and o.attrs[k][j].val[0].startswith('old_'))]
-            chk.ob('R17.4', f'OrbitBase.set_stellar_distance(world given as {signame}): slot 0 holds a Kepler-consistent heliocentric (a, n, P), moons untouched', ok and given_ok and not touched,
-                   why + ('' if given_ok else ' given distance not stored in slot 0;') + (f' other slots modified: {touched}' if touched else ''), mo.where(ms['set_stellar_distance']),
+            def scen():
+                o, worlds = fresh()
+                it2.call(mo, ms['set_stellar_distance'], [mk(worlds), val], {}, self_obj=o)
+                got = it2.call(mo, ms['get_stellar_distance'], [mk(worlds)], {}, self_obj=o)
+                return o, got
+            bad = []; got_ok = True; got = None
+            for lab_, (o, got) in paths(scen):
+                ok, why = kepler_ok(o, 0, True)
+                given_ok = o.attrs['_semi_major_axes'][0] is val
+                touched = [f'{k}[{j}]' for k in KEP + ('_eccentricities',) for j in (1, 2)
+                           if not (isinstance(o.attrs[k][j], X.Node) and o.attrs[k][j].op == 'atom' and o.attrs[k][j].val[0].startswith('old_'))]
+                if not (ok and given_ok and not touched):
+                    bad.append(why + ('' if given_ok else ' given distance not stored in slot 0;') + (f' other slots modified: {touched}' if touched else '') + lab_)
+                got_ok = got_ok and got is val
+            chk.ob('R17.4', f'OrbitBase.set_stellar_distance(world given as {signame}): slot 0 holds a Kepler-consistent heliocentric (a, n, P), moons untouched', not bad,
+                   '; '.join(bad[:2]), mo.where(ms['set_stellar_distance']),
                    method='interpreted mutator (real world_signature_to_index) + GF(p^2) PIT')
-            got = it2.call(mo, ms['get_stellar_distance'], [mk(worlds)], {}, self_obj=o)
-            chk.ob('R17.4', f'OrbitBase.get_stellar_distance(world given as {signame}) reports the value just set', got is val, f'returns {got!r}', mo.where(ms['get_stellar_distance']),
+            chk.ob('R17.4', f'OrbitBase.get_stellar_distance(world given as {signame}) reports the value just set', got_ok, f'returns {got!r}', mo.where(ms['get_stellar_distance']),
                    method='interpreted accessor')
         for signame, mk in (('int 2', lambda w: 2), ('moon instance', lambda w: w[2])):
             o, worlds = fresh()
